@@ -63,7 +63,7 @@ def cases(draw, tier="quick"):
     g = cfg["obs"]["interpolation_xgrid"]
     kin = cfg["obs"]["observables"][meta["name"]][0]
     if clause == "formula":
-        th["MP"] = draw(st.sampled_from([0.938, 0.938, 1e-3]) | st.floats(0.1, 3.0).map(lambda m: round(m, 4)))
+        th["MP"] = draw(st.sampled_from([0.938, 0.938, 1e-3, 1e-6, 1e-9]) | st.floats(0.1, 3.0).map(lambda m: round(m, 4)))
         # xi(x) must stay inside the grid
         mu = th["MP"] ** 2 / kin["Q2"]
         xmin_needed = g[0] * 1.001
